@@ -184,8 +184,8 @@ proof fn lemma_trailing_zero_irrelevant(m: int, s: nat, scale: int)
 }
 
 // ---- shapes, per-layer geometry lists (C16: "macro to abstract, pin to port, obstruction to blockage") ----
-/// model of slotmap's LayerKey: an opaque copyable key
-#[derive(Debug, Clone, Copy)]
+/// model of slotmap's LayerKey: an opaque copyable, hashable key
+#[derive(Debug, Clone, Copy, PartialEq, Eq, Hash)]
 pub struct LayerKey { pub id: u64 }
 /// the key the shared layer table holds (or creates) for a layer name: one key per name — assumption (import_layer is modelled, see below)
 pub uninterp spec fn key_of(name: Seq<char>) -> LayerKey;
@@ -284,7 +284,7 @@ impl LefImporter {
 //@   ret r
 //@   sub R6 /for port in &lefpin\.ports \{/ => for port in lefpin.ports.iter() {
 //@   sub R6 /for lef_layer_geom in &port\.layers \{/ => for lef_layer_geom in port.layers.iter() {
-//@   sub R6 /match abs_port\.shapes\.entry\(layerkey\) \{\s*Entry::Occupied\(mut e\) => e\.get_mut\(\)\.extend\(shapes\),\s*Entry::Vacant\(e\) => \{\s*e\.insert\(shapes\);\s*\}\s*\}/ => vp_entry_extend(&mut abs_port.shapes, layerkey, shapes);
+//@   sub R6? /match abs_port\.shapes\.entry\(layerkey\) \{\s*Entry::Occupied\(mut e\) => e\.get_mut\(\)\.extend\(shapes\),\s*Entry::Vacant\(e\) => \{\s*e\.insert\(shapes\);\s*\}\s*\}/ => vp_entry_extend(&mut abs_port.shapes, layerkey, shapes);
 //@   spec
 //|     requires pin_dec_ok(*lefpin, old(self).dist_scale as int),
 //|         obeys_key_model::<LayerKey>(),
@@ -342,7 +342,7 @@ impl LefImporter {
 //@   sub R5 @c7395c62 /let _layer = \{[\s\S]*?\n            \};/ => let _layer = self.vp_boundary_layer()?;
 //@   sub R6 /for lefpin in &lefmacro\.pins \{/ => for lefpin in lefmacro.pins.iter() {
 //@   sub R6 /for lefobs in &lefmacro\.obs \{/ => for lefobs in lefmacro.obs.iter() {
-//@   sub R6 /match abs\.blockages\.entry\(layerkey\) \{\s*Entry::Occupied\(mut e\) => e\.get_mut\(\)\.extend\(shapes\),\s*Entry::Vacant\(e\) => \{\s*e\.insert\(shapes\);\s*\}\s*\}/ => vp_entry_extend(&mut abs.blockages, layerkey, shapes);
+//@   sub R6? /match abs\.blockages\.entry\(layerkey\) \{\s*Entry::Occupied\(mut e\) => e\.get_mut\(\)\.extend\(shapes\),\s*Entry::Vacant\(e\) => \{\s*e\.insert\(shapes\);\s*\}\s*\}/ => vp_entry_extend(&mut abs.blockages, layerkey, shapes);
 //@   spec
 //|     requires macro_dec_ok(*lefmacro, old(self).dist_scale as int), obeys_key_model::<LayerKey>(),
 //|     ensures final(self).dist_scale == old(self).dist_scale, final(self).lib == old(self).lib,
